@@ -112,6 +112,27 @@ def run(ck, P):
                   "%s of this edge after the last user callback %s(facts %s)"
                   % (body, arg, flag, ev.line, allowed_mask, ("[" + why + "] ") if why else "", fmt_facts(facts)))
 
+    ck.rule("C01.2-STORE-BEFORE-HOOK", "R-PAIR: in start()/stop() the new state is stored before any call that may run a user callback (the hook sees — "
+            "and re-entrant calls are judged against — the new state; a deregistration inside the hook is not overwritten afterwards)", floor=2)
+    for fname in ("start", "stop"):
+        f = P.fn(fname, "Lib/core/mod.c")
+        stores_ = [e for e in P.writes_to_field("_mod", "state") if e.fn is f]
+        ucb = X.usercb_set()
+
+        def step_u(st, ev):
+            # the hook runners themselves (manage_srcs reaches call_pubsub_cb only through the never-delivering NULL-key flush, C02.8)
+            if ev.kind == "call" and ev.callee in ("optional_hook", "call_pubsub_cb"):
+                return st | {"cb"}
+            if ev.kind == "call" and ev.callee is None and cg.event_may_reach(ev, ucb):
+                return st | {"cb"}
+            return st
+        INu = rules.tag_analysis(f, step_u, must=False)
+        late = [w for w in stores_ if "cb" in (f.state_before(INu, w, step_u) or ())]
+        ck.ob("C01.2-STORE-BEFORE-HOOK", f.site("state store precedes callbacks"), bool(stores_) and not late,
+              "the state store in %s() is not preceded by any call that may run a user callback" % fname if not late else
+              "state store at line %d can execute after a user callback ran: while the hook runs the module still shows its old state (setters are "
+              "accepted re-entrantly) and a ZOMBIE set by a deregistration inside the hook is overwritten" % late[0].line)
+
     # ------------------------------------------------------------------ 3. running counter pairing
     ck.rule("C01.3-COUNTER", "R-PAIR: stats.running_modules is written only by start (++ next to the RUNNING store, no call in "
             "between) and stop (-- exactly on paths where the module was RUNNING, before the state store)", floor=3)
@@ -317,7 +338,7 @@ def run(ck, P):
               "%s (bound at %s) may return %s" % (name, ", ".join(sorted({e.fn.name for e in bound[name]})), sorted(rv, key=str)))
 
     ck.rule("C01.7-EVALPASS", "R-MUST-PASS: loop_start (after the context became LOOPING) and recv_events (after a batch, outside "
-            "the per-event loop) run m_map_iterate(c->modules, evaluate_module)", floor=2)
+            "the per-event loop, gated by a counter that every processed event increments) run m_map_iterate(c->modules, evaluate_module)", floor=3)
     for fname in ("loop_start", "recv_events"):
         f = P.fn(fname)
         ck.analysed(f)
@@ -336,6 +357,41 @@ def run(ck, P):
                     "a path from the LOOPING store to the exit skips the evaluation pass"
         ck.ob("C01.7-EVALPASS", f.site("evaluate pass"), ok, det,
               witness=[("del_event", f.unit, f.name, e.block.id, e.idx) for e in evs])
+
+    # every event of the batch that was handed to its process callback counts, so that the batch is followed by an evaluation pass
+    rvf = P.fn("recv_events")
+    gate = [e for e in bound.get("evaluate_module", []) if e.fn is rvf]
+    cnt_var = None
+    if gate:
+        fc = X.facts(rvf, gate[0])
+        for (a, p_) in fc:
+            m_ = a.startswith("(") and a.endswith(" > 0)")
+            if m_ and p_:
+                cnt_var = a[1:-5]
+    ck.need(cnt_var is not None, "the evaluation pass of recv_events is no longer gated by a positive event count")
+    bad = None
+    nproc = 0
+    for path in rvf.paths(loop_fragments=True):
+        feas, _env, a, evs = rules.simulate(rvf, path)
+        if not feas:
+            continue
+        procs = [e for e in evs if e.kind == "call" and e.callee is None and S(e.e["fn"]).endswith("->process")]
+        if not procs:
+            continue
+        # only iterations that complete normally: no error, an event was produced (module sources) or it is a context source
+        if a.get("err") is True or a.get("evt") is False or a.get("msg->fd_evt") is False:
+            continue
+        last = path[-1][0]
+        if last == rvf.exit:
+            continue
+        nproc += 1
+        incs = [e for e in evs if (e.kind == "incdec" and S(e.lhs) == cnt_var and e.e["op"] == "++") and evs.index(e) > evs.index(procs[-1])]
+        if not incs:
+            bad = path
+    ck.ob("C01.7-EVALPASS", rvf.site("every processed event counts"), bad is None and nproc > 0,
+          "%d loop path(s) that process an event all increment '%s', the counter gating the evaluation pass" % (nproc, cnt_var) if bad is None else
+          "an event is processed without incrementing '%s': a batch made only of such events (e.g. context tick) is not followed by an evaluation pass" % cnt_var,
+          path=rules.fmt_path(rvf, bad) if bad else None)
 
     ck.not_decided += [
         "that arbitrary call sequences keep the counter equal to the number of RUNNING modules (follows from C01.2+C01.3 only)",
